@@ -141,7 +141,7 @@ fn main() {
     let (cmd, opts) = args_map();
     // watchdog: a call of the code under test that does not return within the limit is reported as
     // divergence (exit status 3, the event on stdout) instead of hanging the check
-    let limit = opts.get("call-timeout").map(|s| s.parse().unwrap()).unwrap_or(20u64);
+    let limit = opts.get("call-timeout").map(|s| s.parse().unwrap()).unwrap_or(60u64);
     let out_path = opts.get("out").cloned();
     std::thread::spawn(move || loop {
         std::thread::sleep(std::time::Duration::from_millis(500));
